@@ -15,7 +15,9 @@ import vlib
 
 MODEL = "consumer"
 MODULE = "Model.Consumer"
-TIED = ["C03_single_commit_committed_is_acked", "C03_commit_is_last_processed"]
+TIED = ["C03_single_commit_committed_is_acked", "C03_single_commit", "C03_commit_is_last_processed", "C03_no_delivery_after_failure",
+        "C03_commit_le_processed", "C03_commit_le_processed_offsets", "C03_store_is_processed", "C03_resume_asks_coordinator",
+        "C03_resume_position", "C03_resume_nothing_stored", "C03_resume"]
 
 
 def libs():
@@ -79,6 +81,7 @@ def completed_offsets(LL, CL, events, trace):
         if ev[0] == CL.EV_START and any(o[0] == CL.OUT_RET for o in outs):
             done += pw.done
             pw.epoch()
+            pw.started()
         pw.event(ev, True)
         for o in outs:
             if o[0] in (CL.OUT_OFFREQ, CL.OUT_OFFFETCH):
@@ -172,6 +175,13 @@ def run(ck):
         ck.hist("commits_applied_answer_lost", len(store.lost))
         done1 = completed_offsets(LL, CL, events, drv.trace)
         c = store.committed
+        # C03_store_is_processed: whatever this life made the coordinator store is the end of a block that completed successfully
+        for x in list(store.acked) + list(store.lost):
+            if x not in done1:
+                ck.violation({"kind": "monitor", "theorem": "C03_store_is_processed",
+                              "what": "the coordinator stored offset %r; successfully processed offsets: ...%r" % (x, done1[-8:]),
+                              "cfg": cfg.line(), "events": C02.jsonable(events), "replay_op": "events"})
+                break
         # at-least-once across the crash: if the committed offset was acknowledged since the last change of start position,
         # everything delivered since then at or below it was processed before the crash
         steps_, _ = CL.split_steps(drv.trace)
